@@ -296,27 +296,30 @@ Definition test_trial (d : dfac) (cols : list (list cell)) (li i su : nat) : opt
 Definition applies_group (d : dfac) (g : nat) : bool :=
   (df_start d <=? g) && (((g - df_start d) mod df_stride d) =? 0).
 
-(** [add_implied_levels] for one implied factor: arguments are read from the
-    columns at [rel_i - shift] (not scaled by the sustain count), every accepting
-    level appends its name (no [break]); the result is the flat [vals] list
+(** [add_implied_levels] for one implied factor (as of /repo commit 360565d): arguments
+    are read from the columns at [rel_i - shift] (not scaled by the sustain count),
+    an empty entry [""] of a dependency that does not apply yet is passed as [None]
+    ([results[...] or None]), and the first accepting level is appended ([break]);
+    if no level accepts nothing is appended.  The result is the flat [vals] list
     ([None] = ""). *)
+Definition empty_to_none (c : cell) : cell := match c with CEmpty => CBefore | _ => c end.
+
 Definition implied_args (cols : list (list cell)) (width i su : nat) : option tuple :=
   let rel_i := (i / su) * su in
   option_map (@concat cell)
     (all_some' (map (fun col =>
                        all_some' (map (fun j =>
                                          let shift := width - j - 1 in
-                                         if shift <=? rel_i then nth_error col (rel_i - shift) else Some CBefore)
+                                         if shift <=? rel_i then option_map empty_to_none (nth_error col (rel_i - shift))
+                                         else Some CBefore)
                                       (seq 0 width))) cols)).
-
-Definition accepting_levels (d : dfac) (t : tuple) : list nat :=
-  filter (fun li => accepts d li t) (seq 0 (length (df_levels d))).
 
 Definition add_implied (d : dfac) (cols : list (list cell)) (n su : nat) : option (list (option nat)) :=
   option_map (@concat (option nat))
     (all_some' (map (fun i =>
                        if applies_group d (i / su) then
-                         option_map (fun t => map Some (accepting_levels d t)) (implied_args cols (df_width d) i su)
+                         option_map (fun t => match select_level d t with Some l => [Some l] | None => [] end)
+                                    (implied_args cols (df_width d) i su)
                        else Some [None]) (seq 0 n))).
 
 (** * The whole block, on the flat record *)
